@@ -105,8 +105,8 @@ CHECKS = {
         design="DESIGN.md §4 C10",
     ),
     "C11": dict(
-        rules="R11.1-R11.13",
-        what="wire grammar of write equals wire grammar of read for 46 serializer classes and the helper pairs, down to librt primitives; field and flag label alignment; tag table integrity and dispatcher exhaustiveness; JSON key/attribute agreement and JSON==binary attribute sets; count/emit filter agreement; sorted iteration in interface serializers; order discipline (only sets may be written sorted); __eq__ fields and declared attributes covered by serialization; fix-up covers every by-reference field; optional fields are encoded by an identity test against None",
+        rules="R11.1-R11.16",
+        what="wire grammar of write equals wire grammar of read for 46 serializer classes and the helper pairs, down to librt primitives; field and flag label alignment; tag table integrity and dispatcher exhaustiveness; JSON key/attribute agreement and JSON==binary attribute sets; count/emit filter agreement; sorted iteration in interface serializers; order discipline (only sets may be written sorted); __eq__ fields and declared attributes covered by serialization; fix-up covers every by-reference field; optional fields are encoded by an identity test against None; the derived fields of a special alias are rebuilt together after load; verbatim JSON stores hold only JSON-representable declared types; what fix-up establishes on loaded functions a fresh analysis establishes too",
         quant="symbols, types and flag combinations of all modules",
         technique="wire-grammar extraction (abstract interpretation of serializer bodies in evaluation order) and structural term comparison; sibling cross-checks",
         note="Trusted base: the librt.internal primitive pairs round-trip their argument; extract_symbol consumes one tagged object; CPython evaluation order. Value-level inverses (ARG_KINDS[int(x.value)], bytes.fromhex(x.hex())) are not decided. One known finding (symbol tables serialized in sorted order) is listed in known_findings.json.",
